@@ -116,6 +116,7 @@ CHECKS = {
         "subchecks": [
             R("TestC07Purge", 400, 1500, qs=2),
             R("TestC07PurgeRefused", 150, 1500),
+            R("TestC07Many", 25, 250, ts=4),
             R("TestC07Lapse", 6, 60, qs=8, ts=16, thorough_extra={"timeout": 1200}),
         ],
     },
@@ -260,6 +261,7 @@ CHECKS = {
         "subchecks": [
             E("TestC17Vectors"),
             E("TestC17Deadline"),
+            E("TestC17ManyCalls"),
             R("TestC17Failover", 100, 600, qs=2),
             R("TestC17Backoff", 50000, 1000000),
         ],
@@ -274,6 +276,7 @@ CHECKS = {
         "assumptions": ["loopback aliases share one port", "certificates are valid 'now' by >= 24 h margins"],
         "subchecks": [
             E("TestC18Grid"),
+            E("TestC18Expiry"),
             R("TestC18TLS", 120, 500, qs=2),
         ],
     },
